@@ -210,7 +210,7 @@ def gen_case(rng):
 def run(ctx):
     quick = ctx.tier == "quick"
     rng = ctx.rng("gen")
-    cases = [gen_case(rng) for _ in range(90 if quick else 4000)]
+    cases = [gen_case(rng) for _ in range(90 if quick else 1500)]
     ctx.rule = ("histories of 3-8 operations (submit task/workflow with rerun/propagate flags and a read-only list ⊆ {R1,R2}; plant an "
                 "incomplete job directory) over 3 tasks + 2 workflows sharing a node identity; non-trivial = >=3 submissions; "
                 "distinct = distinct history")
